@@ -262,3 +262,16 @@ Proof. vm_compute. reflexivity. Qed.
 Example topo_check_rejects_split :
   topo_check 1 3 [[true;true;true]] [[true;false;true]] = false.
 Proof. vm_compute. reflexivity. Qed.
+
+(* the hypotheses of [skel_loop_grid_topo] on a non-trivial input (a pixel is removed) *)
+Example skel_hyp_example :
+  let g := [[true;true;true];[true;true;true];[true;true;false]] in
+  let order := [(1,1); (2,0); (1,2); (0,1)] in
+  wf 3 3 g /\ NoDup order /\ (forall p, In p order -> img_of g p = true) /\
+  skel_loop_grid 3 3 order g = [[true;true;true];[true;true;false];[false;true;false]].
+Proof.
+  cbv zeta. split; [exact thin_hyp_example|]. split.
+  - repeat constructor; cbn; intuition discriminate.
+  - split; [|vm_compute; reflexivity].
+    intros p [<-|[<-|[<-|[<-|[]]]]]; reflexivity.
+Qed.
